@@ -96,6 +96,7 @@ def api(call, fn, *a, **kw):
 #   reconf: seed -> a discrete-time offline object was first configured with a k-fold sampling period and used on another log,
 #          then re-configured to the configuration of the scenario (the 'prior' mechanism of build(), for every check)
 #   late_config: True -> objects with a configuration (default unit, sampling period) are configured AFTER parse() instead of before
+#   const_bounds: seed -> the numeric interval bounds of every specification text become named constants (API or in-text)
 #   surplus_named: seed -> the data set of a discrete-time offline evaluation carries further columns that have the names of
 #          the assertions / sub-specifications (a table the results were written back to, a CSV with output columns)
 
@@ -291,6 +292,40 @@ def _discrete_units(desc):
     return d
 
 
+def _const_bounds(desc):
+    """run environment 'const_bounds': every numeric interval bound of the specification texts becomes a named constant
+    (`always[0:B0p3 s]`), declared through declare_const() with its decimal text or with a number, or inside the text
+    (`const float B0p3 = 0.3`). The durations are the same, so nothing may change - in particular a bound that is a multiple of
+    the sampling period stays one (0.3 s at 100 ms)."""
+    import re
+    import random
+    crng = random.Random(ENV['const_bounds'])
+    consts = {}
+
+    def one(m):
+        num, unit = m.group(1), m.group(2) or ''
+        name = 'B' + num.replace('.', 'p')
+        consts[name] = num
+        return name + ((' ' + unit) if unit else '')
+
+    def interval(m):
+        return '[' + re.sub(r'([0-9]+(?:\.[0-9]+)?)(s|ms|us|ns)?', one, m.group(1)) + ']'
+    pat = r'\[(\s*[0-9.]+\s*(?:s|ms|us|ns)?\s*[,:]\s*[0-9.]+\s*(?:s|ms|us|ns)?\s*)\]'
+    d = dict(desc)
+    d['spec'] = re.sub(pat, interval, desc['spec'])
+    d['subspecs'] = [re.sub(pat, interval, t) for t in (desc.get('subspecs') or [])]
+    have = set(c for c, _, _ in desc.get('consts', []))
+    if not consts or (have & set(consts)) or any(re.search(r'\b%s\b' % k, desc['spec']) for k in consts):
+        return desc
+    how = crng.choice(['api_text', 'api_number', 'in_text'])
+    if how == 'in_text' and not d['subspecs']:
+        d['spec'] = '\n'.join(['const float %s = %s' % (k, v) for k, v in sorted(consts.items())] + [d['spec']])
+    else:
+        d['consts'] = list(desc.get('consts', [])) + [[k, 'float', (float(v) if how == 'api_number' else v)] for k, v in sorted(consts.items())]
+    ENV_FIRED['const_bounds'] = 1
+    return d
+
+
 def new_spec(desc):
     """construct + declare (no parse)"""
     if ENV.get('dense_units') is not None and desc['cls'] in ('ct', 'ct_off', 'ct_on') and not desc.get('unit') \
@@ -299,6 +334,8 @@ def new_spec(desc):
     if ENV.get('discrete_units') is not None and desc['cls'] in ('dt', 'dt_off', 'dt_on') and not desc.get('unit') \
             and not desc.get('sampling') and not desc.get('prior') and not desc.get('_keep_notation'):
         desc = _discrete_units(desc)
+    if ENV.get('const_bounds') is not None:
+        desc = _const_bounds(desc)
     if ENV.get('decor') is not None:
         desc = _decorate(desc)
     sem = SEMANTICS[desc.get('semantics', 'standard')]
